@@ -13,6 +13,8 @@
    With buffered masters (last part of this file, proofs in Proofs/BufferedNesting.v): for a drain that completes without an
    error outcome the same holds of the emitted tags once every Full item is unrolled (C06_buffered_clean_well_nested and
    following); for runs with an error inside a buffered master it is FALSE (C06_buffered_error_counterexample, finding D29).
+   The end of the input closes every open master in buffered drains too (C06_buffered_eof_closes_all and following, at the end
+   of this file, proofs in Proofs/BufferedEof.v).
 
    Byte ranges (second half of this file, proofs in Proofs/Extents.v): with oversized children not tolerated
    ([c_allow_over c = false]; the other tolerances arbitrary) and no master buffered, every element lies inside the byte range
@@ -30,7 +32,7 @@
        of this file) and the oversize-tolerant configuration is not covered; the statements are about the
        abstract reader (the buffered machine yields the same items, Proofs/Refine.v). *)
 From Ebml Require Import Base Tools Spec Reader Pure Proofs.RollUp Proofs.Nesting Proofs.BufferSim Proofs.Tiling Proofs.Extents
-  Proofs.AuditNesting Proofs.BufferedNesting.
+  Proofs.AuditNesting Proofs.BufferedNesting Proofs.BufferSimErr Proofs.BufferedEof.
 
 (* For every input and every sequence of next() / try_recover() / drain operations (so also for the items that follow errors
    and recoveries), the emitted tags are accepted by the checker started with nothing determined and some base chain.  The
@@ -714,3 +716,92 @@ Proof.
     by (vm_compute; reflexivity).
   rewrite E. apply rooted_rejected_everywhere; [reflexivity|reflexivity|vm_compute; reflexivity].
 Qed.
+
+(* ================================================================== buffered masters: the end of the input closes everything
+   The buffered analogue of C06_eof_closes_all (proofs in Proofs/BufferedEof.v).  "The drain is [outs ++ [ONone]]" says that it
+   yielded the items [outs] - all outcomes of a drain but the last are items, C08_drain_items -, no error, no panic-site, budget
+   or item-limit outcome, and ended with None.  Unlike the C06_buffered_clean_* statements above these need NO side condition
+   about the item limit of the drain with nothing buffered: the simulation holds for every item limit of that drain
+   (C08_buffered_none_export), and a limit larger than the number of unrolled tags is used. *)
+
+(* Unknown ids and hierarchy errors not tolerated, ANY buffered set, Ends emitted at the end of the input, every input: if the
+   drain yields the items [outs] and ends with None, the tags of [outs] with every Full item unrolled recursively are accepted by
+   the checker from some base chain, and NOTHING IS LEFT OPEN after the last one: every master that was opened (buffered or
+   not, Full items included) and every implied ancestor has received its End. *)
+Theorem C06_buffered_eof_closes_all : forall c input outs,
+  c_allow_id c = false -> c_allow_hier c = false -> c_emit_eof c = true ->
+  p_run c input [RAll] = outs ++ [ONone] ->
+  exists base det, chk (c_sp c) base false (flat (out_tags outs)) = Some ([], det).
+Proof. exact beof_closes_all. Qed.
+
+(* Rooted form (cf. C06_eof_closes_all_rooted): same hypotheses; if the unrolled tag sequence begins with a Start or element
+   whose id is declared with the empty path (a root element), the checker started from the EMPTY base ends with nothing open and
+   the position determined. *)
+Theorem C06_buffered_eof_closes_all_rooted : forall c input outs,
+  c_allow_id c = false -> c_allow_hier c = false -> c_emit_eof c = true ->
+  p_run c input [RAll] = outs ++ [ONone] ->
+  forall x rest, flat (out_tags outs) = x :: rest -> is_se x = true -> get_path (c_sp c) (tag_id x) = [] ->
+  chk (c_sp c) [] false (flat (out_tags outs)) = Some ([], true).
+Proof. exact beof_closes_all_rooted. Qed.
+
+(* ... the root condition put on the first item of the buffered drain itself: it is not an End (so a Start, an element, or the Full
+   item of a buffered root master) and its id is declared with the empty path *)
+Theorem C06_buffered_eof_closes_all_rooted_first : forall c input outs,
+  c_allow_id c = false -> c_allow_hier c = false -> c_emit_eof c = true ->
+  p_run c input [RAll] = outs ++ [ONone] ->
+  forall y rest, out_tags outs = y :: rest -> (forall id, y <> TEnd id) -> get_path (c_sp c) (tag_id y) = [] ->
+  chk (c_sp c) [] false (flat (out_tags outs)) = Some ([], true).
+Proof. exact beof_closes_all_rooted_first. Qed.
+
+(* With the base pinned (cf. C06_eof_closes_all_pinned): same hypotheses; EITHER the checker started from the EMPTY base ends with
+   nothing open, undetermined, OR the unrolled tags are [pre ++ map TEnd o ++ x :: rest] with [x] the first Start / element whose
+   declared path is placeholder-free, [pre] accepted from the EMPTY base, undetermined, leaving exactly [o] open, and the checker
+   started from the masters named by the declared path of [x] ends with nothing open, determined. *)
+Theorem C06_buffered_eof_closes_all_pinned : forall c input outs,
+  c_allow_id c = false -> c_allow_hier c = false -> c_emit_eof c = true ->
+  p_run c input [RAll] = outs ++ [ONone] ->
+  chk (c_sp c) [] false (flat (out_tags outs)) = Some ([], false) \/
+  (exists pre o x rest, flat (out_tags outs) = pre ++ map TEnd o ++ x :: rest /\ chk (c_sp c) [] false pre = Some (o, false) /\
+     is_se x = true /\ all_ids (get_path (c_sp c) (tag_id x)) = true /\
+     chk (c_sp c) (base_of (c_sp c) (tag_id x)) false (flat (out_tags outs)) = Some ([], true)).
+Proof. exact beof_closes_all_pinned. Qed.
+
+(* the document of C06_buffered_ex (Root{ A{ B{ x } y } }, A and B buffered, B nested in A): the drain ends with None, its first
+   item is the Start of the root master, so C06_buffered_eof_closes_all_rooted_first applies; the conclusion computes *)
+Example C06_buffered_eof_ex :
+  let outs := [OItem (TStart 129) 0; OItem (TFull 16643 [TFull 16645 [TElem 16641 (VI (-200))]; TElem 16642 (VU 7)]) 2;
+               OItem (TEnd 129) 0] in
+  p_run C06_bex_cfg C06_bex_doc [RAll] = outs ++ [ONone] /\
+  chk C06_bex_sp [] false (flat (out_tags outs)) = Some ([], true).
+Proof.
+  cbv zeta. assert (H : p_run C06_bex_cfg C06_bex_doc [RAll] =
+    [OItem (TStart 129) 0; OItem (TFull 16643 [TFull 16645 [TElem 16641 (VI (-200))]; TElem 16642 (VU 7)]) 2;
+     OItem (TEnd 129) 0] ++ [ONone]) by (vm_compute; reflexivity).
+  split; [exact H|].
+  apply (C06_buffered_eof_closes_all_rooted_first C06_bex_cfg C06_bex_doc _ eq_refl eq_refl eq_refl H (TStart 129)
+           [TFull 16643 [TFull 16645 [TElem 16641 (VI (-200))]; TElem 16642 (VU 7)]; TEnd 129]).
+  - reflexivity.
+  - intros id E. discriminate E.
+  - reflexivity.
+Qed.
+
+(* No side condition about the item limit is needed.  The configuration of C08_limit_ex: the element 130 is declared under 88
+   ancestors, 129 is a global master, buffered; the 7-byte input [129 128 129 128 130 129 7] starts mid-document.  The buffered
+   drain ends with None after 91 items whose unrolling has 93 tags; the drain with nothing buffered is CUT after 92 items, its item
+   limit (so the C06_buffered_clean_* statements do not apply), yet the unrolled tags are accepted from the 88 masters named by the
+   declared path of the element 130 with nothing left open, as C06_buffered_eof_closes_all_pinned says. *)
+Example C06_buffered_eof_limit_ex :
+  let chain k := map (fun i => 1000 + N.of_nat i) (seq 0 k) in
+  let sp := map (fun i => {| e_id := 1000 + N.of_nat i; e_ty := DMaster; e_path := map PId (chain i) |}) (seq 0 88) ++
+            [ {| e_id := 129; e_ty := DMaster; e_path := [PGlobal None None] |};
+              {| e_id := 130; e_ty := DUInt; e_path := map PId (chain 88%nat) |} ] in
+  let c := {| c_sp := sp; c_allow_id := false; c_allow_hier := false; c_allow_over := false; c_max := None;
+              c_buffered := [129]; c_emit_eof := true |} in
+  let input := [129; 128; 129; 128; 130; 129; 7] in
+  last (p_run c input [RAll]) OLimit = ONone /\
+  last (p_run (unbuffered c) input [RAll]) ONone = OLimit /\
+  length (flat (out_tags (p_run c input [RAll]))) = 93%nat /\
+  firstn 3 (flat (out_tags (p_run c input [RAll]))) = [TStart 129; TEnd 129; TStart 129] /\
+  chk sp [] false (flat (out_tags (p_run c input [RAll]))) = None /\
+  chk sp (base_of sp 130) false (flat (out_tags (p_run c input [RAll]))) = Some ([], true).
+Proof. vm_compute. repeat split; reflexivity. Qed.
